@@ -2,7 +2,7 @@
    Property theorems only; proofs in Proofs/PercP.v.
    The model: edge i of G.edges() is removed iff its own draw rs_i = random.random() > phi;
    the result is (largest component of what is kept) / N. *)
-From Coq Require Import List ZArith QArith Bool Arith.
+From Coq Require Import List ZArith QArith Bool Arith Permutation.
 From GV Require Import Lib.Tree Model.Perc Proofs.PercP Proofs.PercMonoP.
 Import ListNotations.
 Local Open Scope nat_scope.
@@ -79,6 +79,16 @@ Theorem C18_more_edges_larger_components :
     (forall v, In v nodes -> incl (comp nodes es v) (comp nodes es' v)).
 Proof. exact largest_mono_edges. Qed.
 Print Assumptions C18_more_edges_larger_components.
+
+(* the value depends only on the undirected kept-edge SET and the vertex SET: order, orientation and
+   multiplicity of the edges and the order of G.nodes() are irrelevant (so only the pairing of draws
+   with edges, C18_edge_kept_iff_own_draw, uses the G.edges() order) *)
+Theorem C18_value_depends_on_sets_only :
+  (forall nodes es es', wf nodes es -> wf nodes es' ->
+     (forall u x, adj es u x <-> adj es' u x) -> largest nodes es = largest nodes es') /\
+  (forall nodes nodes' es, Permutation nodes nodes' -> largest nodes es = largest nodes' es).
+Proof. split; [exact largest_adj_ext|exact largest_nodes_perm]. Qed.
+Print Assumptions C18_value_depends_on_sets_only.
 
 (* non-vacuity *)
 Example C18_nonvacuous :
